@@ -58,35 +58,45 @@ typedef struct {
     int automatic; /* the ended scheduler is automatic */
     int nbefore, nafter, pusher;
     int poll;      /* XEXIT: wait for TERMINATED before asking for the join */
+    int eyield;    /* E yields once first: it goes behind the units queued after
+                    * it and races with the pusher for the tail of the pool */
 } cfg_t;
 
 static const cfg_t cfgs[] = {
     /* ---- quick, cheapest first ------------------------------------------- */
     { "xstream_exit, main BASIC: [U,E,U,U] + primary pushes; join, revive, "
-      "push 2, join, free", 1, M_XEXIT, W_MAIN, K_BASIC, 1, 1, 2, PUSH_PRIMARY, 0 },
-    { "sched_exit, stacked BASIC (user-owned): [U,E,U,U] + primary pushes", 1,
-      M_SEXIT, W_STACKED, K_BASIC, 0, 1, 2, PUSH_PRIMARY, 0 },
+      "push 2, join, free", 1, M_XEXIT, W_MAIN, K_BASIC, 1, 1, 2, PUSH_PRIMARY, 0,
+      0 },
+    { "sched_exit, stacked BASIC (user-owned): [U,E(yields),U] + primary pushes",
+      1, M_SEXIT, W_STACKED, K_BASIC, 0, 1, 1, PUSH_PRIMARY, 0, 1 },
     { "sched_finish, main BASIC (user-owned): [U,E,U] + primary pushes", 1,
-      M_SFIN, W_MAIN, K_BASIC, 0, 1, 1, PUSH_PRIMARY, 0 },
-    { "sched_exit, main user-defined scheduler: [E,U,U] + primary pushes", 1,
-      M_SEXIT, W_MAIN, K_USER, 0, 0, 2, PUSH_PRIMARY, 0 },
-    { "xstream_exit from a unit of a stacked BASIC (automatic): [E,U] + primary "
-      "pushes", 1, M_XEXIT, W_STACKED, K_BASIC, 1, 0, 1, PUSH_PRIMARY, 0 },
-    { "xstream_exit, main BASIC: [E,U]; primary polls for TERMINATED, then "
-      "joins", 1, M_XEXIT, W_MAIN, K_BASIC, 1, 0, 1, PUSH_NONE, 1 },
+      M_SFIN, W_MAIN, K_BASIC, 0, 1, 1, PUSH_PRIMARY, 0, 0 },
+    { "sched_exit, main user-defined scheduler: [E(yields),U,U] + primary pushes",
+      1, M_SEXIT, W_MAIN, K_USER, 0, 0, 2, PUSH_PRIMARY, 0, 1 },
+    { "xstream_exit from a unit of a stacked BASIC (automatic): [E(yields),U] + "
+      "primary pushes", 1, M_XEXIT, W_STACKED, K_BASIC, 1, 0, 1, PUSH_PRIMARY, 0,
+      1 },
+    { "xstream_exit, main BASIC: [E(yields),U] + primary pushes; primary polls "
+      "for TERMINATED, then joins", 1, M_XEXIT, W_MAIN, K_BASIC, 1, 0, 1,
+      PUSH_PRIMARY, 1, 1 },
+    { "sched_finish, stacked BASIC (automatic): [U,E,U] + primary pushes", 1,
+      M_SFIN, W_STACKED, K_BASIC, 1, 1, 1, PUSH_PRIMARY, 0, 0 },
     /* ---- thorough only --------------------------------------------------- */
-    { "xstream_exit, main BASIC_WAIT/FIFO_WAIT: [U,E,U,U] + X pushes", 0, M_XEXIT,
-      W_MAIN, K_BASIC_WAIT, 1, 1, 2, PUSH_EXT, 0 },
-    { "sched_exit, stacked user-defined scheduler (automatic): [U,E,U] + X "
-      "pushes", 0, M_SEXIT, W_STACKED, K_USER, 1, 1, 1, PUSH_EXT, 0 },
-    { "sched_finish, stacked BASIC (user-owned): [U,E,U,U] + X pushes", 0, M_SFIN,
-      W_STACKED, K_BASIC, 0, 1, 2, PUSH_EXT, 0 },
+    { "xstream_exit, main BASIC_WAIT/FIFO_WAIT: [U,E(yields),U,U] + X pushes", 0,
+      M_XEXIT, W_MAIN, K_BASIC_WAIT, 1, 1, 2, PUSH_EXT, 0, 1 },
+    { "sched_exit, stacked user-defined scheduler (automatic): [U,E(yields),U] + "
+      "X pushes", 0, M_SEXIT, W_STACKED, K_USER, 1, 1, 1, PUSH_EXT, 0, 1 },
+    { "sched_finish, stacked BASIC (user-owned): [U,E(yields),U,U] + X pushes", 0,
+      M_SFIN, W_STACKED, K_BASIC, 0, 1, 2, PUSH_EXT, 0, 1 },
     { "sched_finish, main user-defined scheduler (automatic): [E,U,U] + X "
-      "pushes", 0, M_SFIN, W_MAIN, K_USER, 1, 0, 2, PUSH_EXT, 0 },
-    { "sched_exit, main BASIC (automatic): [U,E,U] + X pushes", 0, M_SEXIT,
-      W_MAIN, K_BASIC, 1, 1, 1, PUSH_EXT, 0 },
-    { "xstream_exit, main user-defined scheduler: [U,E,U] + X pushes; primary "
-      "polls for TERMINATED", 0, M_XEXIT, W_MAIN, K_USER, 0, 1, 1, PUSH_EXT, 1 },
+      "pushes", 0, M_SFIN, W_MAIN, K_USER, 1, 0, 2, PUSH_EXT, 0, 0 },
+    { "sched_exit, main BASIC (automatic): [U,E(yields),U] + X pushes", 0,
+      M_SEXIT, W_MAIN, K_BASIC, 1, 1, 1, PUSH_EXT, 0, 1 },
+    { "xstream_exit, main user-defined scheduler: [U,E(yields),U] + X pushes; "
+      "primary polls for TERMINATED", 0, M_XEXIT, W_MAIN, K_USER, 0, 1, 1,
+      PUSH_EXT, 1, 1 },
+    { "xstream_exit from a unit of a stacked BASIC (user-owned): [U,E,U,U] + X "
+      "pushes", 0, M_XEXIT, W_STACKED, K_BASIC, 0, 1, 2, PUSH_EXT, 0, 0 },
 };
 
 #define MAXU 8
@@ -101,6 +111,14 @@ static int incarnation = 1;
 static int n_pre;       /* units pre-filled around E */
 static int xslot, post0; /* index of the pusher's unit, of the first post unit */
 static ABT_thread last_named = ABT_THREAD_NULL, e_handle = ABT_THREAD_NULL;
+static char run1[2 * MAXU]; /* what ran in the first life, in order */
+static int nrun1;
+
+static void note(char c)
+{
+    if (incarnation == 1 && nrun1 < (int)sizeof(run1) - 1)
+        run1[nrun1++] = c;
+}
 
 static void unit_fn(void *arg)
 {
@@ -111,6 +129,7 @@ static void unit_fn(void *arg)
     abtmc_check(ran[id] == 1, "ran_twice", "unit %d was run %d times", id,
                 ran[id]);
     inc_of[id] = incarnation;
+    note(id == xslot ? 'x' : (char)('0' + id));
     OK(ABT_xstream_self_rank(&rank_of[id]));
 }
 
@@ -122,7 +141,10 @@ static void e_fn(void *arg)
     int rank = -1;
     OK(ABT_xstream_self_rank(&rank));
     abtmc_check(rank == 1, "self_rank", "E runs on rank %d", rank);
+    if (C->eyield)
+        OK(ABT_thread_yield());
     abtmc_progress();
+    note('E');
     switch (C->mode) {
         case M_XEXIT: {
             int r = ABT_xstream_exit();
@@ -321,10 +343,6 @@ static void scenario(int cfg)
                     "ABT_sched_finish: the scheduler ended although %d unit(s) "
                     "that were queued when it was asked to finish never ran",
                     left_pre);
-    char first[MAXU + 1];
-    for (int i = 0; i < post0; i++)
-        first[i] = (i == xslot && !have_x) ? '-' : (char)('0' + ran[i]);
-    first[post0] = 0;
 
     /* second life */
     if (C->where == W_STACKED && !C->automatic)
@@ -387,7 +405,7 @@ static void scenario(int cfg)
     abtmc_check(abtmc_ledger_live() == 0, "leak",
                 "%ld resources still allocated after ABT_finalize",
                 abtmc_ledger_live());
-    abtmc_observe("st=%c first=%s", st_before, first);
+    abtmc_observe("st=%c run1=%s left=%d", st_before, run1, left);
 }
 
 static const char *cfg_name(int i) { return cfgs[i].name; }
